@@ -628,10 +628,17 @@ pub fn crash_suites(thorough: bool) -> Vec<Suite> {
     v.push(crash_suite("crash-small-v3", small_disk(3, 5), crash_tables(3), crash_core_ops(), d(4, 6)));
     v.push(crash_suite("crash-ttl-reuse-v3", disk(3, true, true), crash_tables(3), crash_ttl_reuse_ops(), d(7, 8)));
     v.push(crash_suite("crash-ttl-reuse-v2", disk(2, true, true), crash_tables(2), crash_ttl_reuse_ops(), d(6, 8)));
+    // a device that fills up: the out-of-space path retires old extents before the pending write fits
+    v.push(crash_suite("crash-full4-v3", small_disk(3, 4), std_tables(), crash_full_ops(), d(5, 7)));
     let mut u = disk(3, true, false);
     u.uring = true;
     v.push(crash_suite("crash-uring-v3", u, crash_tables(3), crash_core_ops(), d(3, 4)));
     v
+}
+
+/// Overwrite chains on a device the newest generation only fits on after a retirement.
+pub fn crash_full_ops() -> Vec<Op> {
+    vec![ins(0, V_X), ins(0, V_BIG2), ins(0, V_BIG3), ins(1, V_BIG2), Op::Delete { k: 0, ts: 0 }, Op::Flush]
 }
 
 /// Deep histories on small devices with mixed extent sizes (C05).
